@@ -9,3 +9,15 @@ Proof.
   unfold gen_informationalGuard.
   destruct (Z.geb_spec code 100), (Z.leb_spec code 199), (Z.eqb_spec code 101); cbn; split; intro; try lia; try discriminate; reflexivity.
 Qed.
+
+(* the status guard of Context.Redirect (context.go, `if code < 300 || code > 308 { return ErrInvalidRedirectCode }`):
+   the regenerated condition is, on every code, the test C14/Model.v ctx_redirect makes, and it refuses
+   exactly the codes outside 300..308 (C14/Spec.v redirect_code_ok) *)
+Lemma redirectGuard_model_C14 code : gen_redirectGuard code = (code <? 300) || (308 <? code).
+Proof. unfold gen_redirectGuard. rewrite Z.gtb_ltb. reflexivity. Qed.
+
+Lemma redirectGuard_spec_C14 code : gen_redirectGuard code = false <-> 300 <= code <= 308.
+Proof.
+  rewrite redirectGuard_model_C14.
+  destruct (Z.ltb_spec code 300), (Z.ltb_spec 308 code); cbn; split; intro; try lia; try discriminate; reflexivity.
+Qed.
